@@ -8,12 +8,13 @@ CONSTANTS Contracts <- McContracts
  Vals = {1}
  SendVals = {0, 1}
  SuicideTo = {"U"}
- G0 = 5
+ G0 = 4
  MaxDepth = 3
  MaxFan = 2
  DepthLimit = 1024
  DevS = FALSE
  DevG = FALSE
+VIEW ViewNoHist
 INVARIANTS StaticIsNoop GasWithinSupplied DepthBound NoCrash JournalMarksOrdered
 PROPERTIES FailedFrameIsNoop OkKeepsEffects GasNeverGrows
 CHECK_DEADLOCK FALSE
